@@ -18,7 +18,16 @@ class ReplayBuildError(Exception):
 def _deps_section():
     txt = open(os.path.join(REPO, 'Cargo.toml')).read()
     m = re.search(r'^\[dependencies\]\n(.*?)(?=^\[|\Z)', txt, re.S | re.M)
-    return '[dependencies]\n' + (m.group(1) if m else '')
+    deps = m.group(1) if m else ''
+    # the replay crate additionally needs tokio's paused clock and unix sockets (features only, same version)
+    def addfeat(mm):
+        feats = mm.group(2)
+        for f in ('"test-util"', '"time"', '"net"', '"rt"', '"sync"'):
+            if f not in feats:
+                feats += ', ' + f
+        return mm.group(1) + feats + mm.group(3)
+    deps = re.sub(r'(tokio = \{[^\n]*features = \[)([^\]]*)(\])', addfeat, deps)
+    return '[dependencies]\n' + deps
 
 def build(profile='dev'):
     """(Re)build the replay binary against /repo's current sources; returns its path."""
